@@ -444,7 +444,7 @@ class DbFloorDivideSpec(DbNewQuantitySpec):
 # Scalar operators (through Python's binary-operator dispatch)
 
 BINOPS = {"add": ast.Add(), "sub": ast.Sub(), "mul": ast.Mult(), "truediv": ast.Div(), "floordiv": ast.FloorDiv()}
-NUMBER_KINDS = ("float", "int", "npfloat")
+NUMBER_KINDS = ("float", "int", "npfloat", "npfloat32")
 
 
 def real_op(opname, a, b):
@@ -485,7 +485,8 @@ class ScalarBinopSpec(FunctionSpec):
         pairs = [("simple", "simple"), ("simple", "derived1"), ("derived1", "simple"), ("simple", "empty"), ("empty", "simple"), ("derived1", "derived1")]
         if tier == "thorough":
             pairs = list(SHAPES_THOROUGH)
-        nk = NUMBER_KINDS if tier == "thorough" else ("float", "int")
+        # npfloat32: a numpy scalar that is a number (numpy.number) without being an int or a float
+        nk = NUMBER_KINDS if tier == "thorough" else ("float", "int", "npfloat32")
         for op in BINOPS:
             for a, b in pairs:
                 out.append((op, a, b))
